@@ -148,6 +148,19 @@ func runCase(c Case, st *ev.Stats) error {
 				}
 				return nil
 			}
+			if own == nil && step.Op == "remove" && res == am.Executed && out.TimeBefore.Equal(true, out.TimeAfter) {
+				// documented no-op: removing states none of which is active does not need a transition
+				anyActive := false
+				for i, n := range r.Names {
+					if am.IsActiveTick(out.TimeBefore[i]) && has(step.States, n) {
+						anyActive = true
+					}
+				}
+				if !anyActive {
+					nExec++
+					return nil
+				}
+			}
 			if own == nil {
 				return fmt.Errorf("%s returned %v but no transition was traced", step, res)
 			}
@@ -535,4 +548,13 @@ func TestReplay(t *testing.T) {
 	default:
 		t.Fatalf("unknown replay kind %q", w.Kind)
 	}
+}
+
+func has(l []string, x string) bool {
+	for _, y := range l {
+		if y == x {
+			return true
+		}
+	}
+	return false
 }
